@@ -79,6 +79,20 @@ def run_steps():
     return [(o, g) for o in OUTCOMES for g in GITS]
 
 
+SYN_TASKS = ["//:e1", "//pkg:e2", "//pkg/sub:e3"]
+SYN_TS = [100, 200]
+
+
+def synthetic_items(tier):
+    """All 2^6 index states over 3 tasks x 2 timestamps (timestamps shared between tasks happen after restores from other
+    checkouts); each version directory holds a distinguishing file."""
+    out = []
+    cells = [(t, ts) for t in SYN_TASKS for ts in SYN_TS]
+    for mask in range(1, 1 << len(cells)):
+        out.append({"synthetic": [list(cells[i]) for i in range(len(cells)) if mask >> i & 1]})
+    return out
+
+
 def items(tier):
     depth = 2 if tier == "quick" else 3
     steps = run_steps()
@@ -90,7 +104,7 @@ def items(tier):
             if tier == "thorough" and d == 3 and (h[0] + h[1] + h[2]) % 3:
                 continue
             out.append({"history": list(h)})
-    return out
+    return out + synthetic_items(tier)
 
 
 def apply_runs(root, history, t0=1_700_000_000):
@@ -113,8 +127,17 @@ def run_item(item, tier):
     def viol(key, what, art):
         found.setdefault(key, (what, art))
 
-    root = driver.fresh_project(FILES, name="c11")
-    t, n = apply_runs(root, item["history"])
+    if "synthetic" in item:
+        rows = [(tid, ts, ("a" * 40 if ts == 100 else None), 1 if ts == 100 else 0) for tid, ts in item["synthetic"]]
+        pre = {}
+        for tid, ts in item["synthetic"]:
+            pre[os.path.join("cond-out", vdir((tid, ts)), "data")] = "%s@%d" % (tid, ts)
+        root = driver.fresh_project(FILES, name="c11", index_rows=rows, pre_tree=pre)
+        t, n = 1_700_000_000, 0
+        item = dict(item, history=["synthetic"] + item["synthetic"])
+    else:
+        root = driver.fresh_project(FILES, name="c11")
+        t, n = apply_runs(root, item["history"])
     res["transitions"] += n
     rows0 = hist.rows(root) or []
     tree0 = hist.data_tree(root)
@@ -196,12 +219,16 @@ def run_item(item, tier):
             if changed:
                 viol("restore:modified-existing", "restore modified existing entries %s" % changed[:4], a2)
             res["states"].add(explore.sig([sorted(rows1), hist.digest(tree1)]))
-    res["sample"] = {"history": [run_steps()[h] for h in item["history"]], "rows": rows0[:4], "archive_variants": len(variants)}
+    res["sample"] = {"history": ([run_steps()[h] for h in item["history"]] if item["history"][:1] != ["synthetic"] else item["history"]),
+                     "rows": rows0[:4], "archive_variants": len(variants)}
     for key, (what, art) in found.items():
         res["violations"].append({"key": key, "what": what, "artefact": art})
     return res
 
 
 def replay(artefact):
+    if artefact["history"][:1] == ["synthetic"]:
+        r = run_item({"synthetic": artefact["history"][1:]}, "quick")
+        return [(v["key"], v["what"]) for v in r["violations"]]
     r = run_item({"history": artefact["history"]}, "quick")
     return [(v["key"], v["what"]) for v in r["violations"]]
